@@ -32,3 +32,33 @@ func divideFundsEvenly(fullAmount, n, f)
 // the shares sum to the input: n*floor(a/n) + (a mod n) == a, and the number of increased shares is a mod n < n
 lemma divisionIdentity [C13]: forall a Int, n Int :: 0 <= a && n > 0 ==> n * q(a, n) + r(a, n) == a && 0 <= r(a, n) && r(a, n) < n
 @*/
+
+/*@
+module codec
+props C13
+dialect go64
+
+// C13 (helper clause): the checksum framing of the data shared through NNS. unshiftChecksum prepends the first four bytes of
+// the SHA-256 of the serialised shared data; shiftChecksum accepts exactly the payloads that start with these four bytes
+// and returns the rest, so shiftChecksum(unshiftChecksum(d)) == (true, d) and data framed for other shared parameters
+// (another checksum) is refused.
+ufun ser(x sharedTransactionData) Bytes
+pure cks(x sharedTransactionData) Bytes = sha256sum(ser(x))[0:4]
+
+// the serialisation is only named here (a deterministic function of the value, A13); its layout is not the subject of the framing clause
+func (x sharedTransactionData) bytes() (r)
+  trusted
+  pure
+  ensures r == ser(x) && !isnil(r)
+
+func (x sharedTransactionData) unshiftChecksum(data) (r)
+  ensures [C13] len(cks(x)) == 4 && r == cks(x) ++ data
+
+func (x sharedTransactionData) shiftChecksum(data) (ok, r)
+  ensures [C13] ok == (len(data) >= 4 && prefix(cks(x), data))
+  ensures [C13] ok ==> r == data[4:]
+
+// over the two contracts: the framing round-trips for the same shared parameters and refuses data framed for parameters with another checksum
+lemma framingRoundTrip [C13]: forall x sharedTransactionData, d Bytes :: len(cks(x)) == 4 ==> len(cks(x) ++ d) >= 4 && prefix(cks(x), cks(x) ++ d) && (cks(x) ++ d)[4:] == d
+lemma framingRejects [C13]: forall x sharedTransactionData, y sharedTransactionData, d Bytes :: len(cks(x)) == 4 && len(cks(y)) == 4 && cks(x) != cks(y) ==> !prefix(cks(y), cks(x) ++ d)
+@*/
